@@ -48,6 +48,47 @@ def chain_complete(cs):
         h = blk.previous_block_hash
 
 
+def long_connection_probe(ck, tier, keys):
+    """one long-lived connection, as between two honest nodes over hours: many times a freshly relayed block is followed by
+    an inventory that names that same block (a periodic re-sync request crossing with the broadcast on the wire); afterwards
+    the peer is ahead by blocks that were never pushed and announces them by inventory: the node still pulls them"""
+    from skepticoin.networking import messages as M
+    rng = ck.rng
+    rounds = 14 if tier == 'quick' else 40
+    with chaingen.Env(period=1000) as env:
+        tg = chaingen.TreeGen(env, keys, rng)
+        n = tg.genesis
+        for _ in range(2):
+            n = tg.extend(n, txs=[], fees=0, dt=100)
+        main = list(tg.nodes)
+        with simnet.Net(seed=rng.getrandbits(30), t0=n.view.time + 100) as net:
+            sn = nodeharness.SingleNode(net, chaingen.impl_state_from(main), [m.block for m in main[1:]], npeers=1)
+            sn.new_messages()
+            for r_ in range(rounds):
+                n = tg.extend(n, txs=[], fees=0, dt=100)
+                net.clock.t = max(net.clock.t, n.view.time + 1)
+                sn.deliver(0, M.DataMessage(M.DATA_BLOCK, n.block))
+                sn.deliver(0, M.InventoryMessage([M.InventoryItem(M.DATA_BLOCK, n.id)]), irt=500 + r_)
+            sn.new_messages()
+            ahead = []
+            for _ in range(3):
+                n = tg.extend(n, txs=[], fees=0, dt=100)
+                ahead.append(n)
+            net.clock.t = max(net.clock.t, n.view.time + 1)
+            sn.deliver(0, M.InventoryMessage([M.InventoryItem(M.DATA_BLOCK, a.id) for a in ahead]), irt=900)
+            asked = [i for (k, i, _irt) in sn.new_messages()[0] if k == 'GetDataMessage']
+            got = sn.new_messages()
+            # serve whatever was asked for (the harness cannot see the requested ids through classify; serve all three)
+            for a in ahead:
+                sn.deliver(0, M.DataMessage(M.DATA_BLOCK, a.block), irt=901)
+            ck.case(('long-connection',), kind='long-connection/%d-crossed-announcements' % rounds,
+                    sample={'rounds': rounds, 'requests_after_inventory': len(asked)})
+            if len(asked) < len(ahead):
+                ck.violation('not-converged', 'after %d relayed blocks each followed by an inventory naming the same block, the node '
+                             'answers an inventory of %d unknown blocks with %d block requests: it can no longer catch up over this '
+                             'connection' % (rounds, len(ahead), len(asked)), {'long_connection': True, 'rounds': rounds})
+
+
 def run(tier, seed):
     ck = common.Check('C10', tier, seed)
     ck.rule = ('2-3 real nodes (LocalPeer, managers, real stores) in simnet; histories: common prefix 1-3, fork lengths chosen '
@@ -122,6 +163,13 @@ def run(tier, seed):
                 ck.case(('serve', tuple(starts)), kind='serve/%d' % len(got))
         finally:
             RP.GET_BLOCKS_INVENTORY_SIZE = old_batch
+    try:
+        long_connection_probe(ck, tier, keys)
+    except Exception:
+        import traceback
+        tb = traceback.format_exc()
+        if 'could not mine a block' not in tb:
+            ck.disagree('long-connection probe crashed: %s' % tb[-500:], {})
     # ---------------- system level: convergence + relay termination
     shapes = [(2, 3, 0), (1, 12, 5), (2, 18, 12), (3, 27, 4), (1, 38, 2)] if tier == 'quick' else \
              [(2, 3, 0), (1, 7, 7), (1, 12, 5), (2, 18, 9), (3, 27, 4), (1, 38, 2), (2, 40, 17), (1, 26, 25)]
@@ -152,6 +200,8 @@ def run(tier, seed):
                         best = max(n.height for h in hist for n in h)
                         tmax = max(n.view.time for n in tg.nodes)
                         with simnet.Net(seed=rng.getrandbits(30), t0=tmax + 1000) as net:
+                            if sched % 2 == 0:
+                                net.default_send_limit = rng.choice([200, 700])      # congested links: partial sends
                             # in every second schedule of a three-node topology two nodes share one address (different ports):
                             # two machines behind one address, or two nodes on one machine
                             shared = (nn == 3 and sched % 2 == 1)
